@@ -45,15 +45,27 @@ OTHER = {
 }
 for _k, _v in OTHER.items():
     KEYS[_k] = _v
+# keys whose being SET changes how OTHER keys are treated (UserNS switches the Remap* keys off): their history runs beside those keys
+COMPANIONS = {
+    "UserNS": "RemapUsers=keep-id\n", "pod:UserNS": "RemapUsers=auto\nRemapUidSize=4096\n", "kube:UserNS": "RemapUsers=auto\n",
+    "User": "Group=7\n", "volume:Device": "Type=ext4\nOptions=rw\n", "volume:Driver": "Image=quay.io/x/y\n",
+    "network:Subnet": "Gateway=10.0.0.1\n", "ReadOnly": "VolatileTmp=yes\n", "Notify": "",
+}
+KEYS["UserNS"] = ("single", ["host", "keep-id"])
+KEYS["pod:UserNS"] = ("single", ["host", "keep-id"])
+KEYS["kube:UserNS"] = ("single", ["host", "auto"])
+KEYS["User"] = ("single", ["5", "root"])
+KEYS["ReadOnly"] = ("bool", ["yes", "no"])
 
 
 def unit_of(key):
     """(file extension, section header, base text, bare key)"""
     import docs
+    comp = COMPANIONS.get(key, "")
     if ":" in key:
         typ, k = key.split(":", 1)
-        return typ, docs.TYPES[typ][0], docs.MINIMAL[typ], k
-    return "container", "Container", "Image=img\n", key
+        return typ, docs.TYPES[typ][0], docs.MINIMAL[typ] + comp, k
+    return "container", "Container", "Image=img\n" + comp, key
 
 
 def py_effective(hist):
